@@ -42,7 +42,7 @@ Variable out_enc : output -> json.
 Variable out_dec : json -> option output.
 
 Notation load := (load orc ctxkeys st cx out_dec).
-Notation save_json := (save_json cx fuel out_enc).
+Notation save_json := (save_json st cx fuel out_enc).
 
 (* every document the shape test rejects - ANY json tree - is refused with ValueError, and the running game
    is returned exactly as it was *)
@@ -73,10 +73,10 @@ Qed.
 
 (* loading the JSON round trip of a save restores position, variables (as the value codec restores them, C06),
    used one-time choices, hook registrations, @join progress and the displayed output, and clears the history *)
-Lemma load_faithful_lemma e e0 doc sd p o vars' :
+Lemma load_faithful_lemma now e e0 doc sd p o vars' :
   cur (ec e) = Some p -> has_key p (passages st) = true -> out (ec e) = Some o ->
   save_doc fuel fixed cx (vars (ec e)) = Some sd ->
-  save_json e = Some doc ->
+  save_json now e = Some doc ->
   output_shape st (json_rt (out_enc o)) = true -> out_dec (json_rt (out_enc o)) = Some o ->
   load_doc fixed cx (vars (ec e0)) (map_items json_rt sd) = Some vars' ->
   load e0 (json_rt doc) =
@@ -87,8 +87,11 @@ Proof.
   unfold SaveLoad.save_json in Hs. rewrite Hsd, Hc, Ho in Hs. inversion Hs; subst doc. clear Hs.
   unfold SaveLoad.load.
   assert (Hd : decode_doc st (json_rt (JObj
-      [("version", JStr "0.1.0"); ("current_passage_id", JStr p); ("state", JObj sd);
-       ("used_choices", enc_strs (used (ec e))); ("hooks", enc_hooks (hooks (ec e)));
+      [("version", JStr "0.1.0"); ("story_version", meta_or_unknown st "version");
+       ("story_name", meta_or_unknown st "title"); ("story_id", meta_or_unknown st "story_id");
+       ("timestamp", JStr now); ("current_passage_id", JStr p); ("state", JObj sd);
+       ("used_choices", enc_strs (used (ec e))); ("metadata", enc_save_meta st);
+       ("hooks", enc_hooks (hooks (ec e)));
        ("join_section_index", enc_join (joinidx (ec e))); ("current_output", out_enc o)]))
      = Some (mkDec p (map_items json_rt sd) (used (ec e)) (hooks (ec e)) (joinidx (ec e))
                    (Some (json_rt (out_enc o))))).
